@@ -22,6 +22,9 @@ CHUNK = 1500
 TASKS_PER_CHILD = 200
 
 PREFIX = ["", "(", "on: ", "Mon, ", "  "]
+DST_STRINGS = ["00:30", "01:30", "1:30 am", "01:59:59", "02:00", "02:30", "2:30 AM", "03:00", "23:30", "01:45 EST", "yesterday 01:30", "Sunday 01:30",
+               "tomorrow 02:30", "7 November 01:30", "14 March 2:30", "28 March 01:30", "31 October 01:30", "in 1 hour", "2 hours ago", "1:15",
+               "24:00", "00:00", "noon", "midnight"]
 DATES = ["", "0001-01-01", "9999-12-31", "31/12/9999", "01/01/0001", "29 February 2023", "Feb 30", "12", "99", "0", "00000000",
          "20140101", "010199", "99999999", "201401011259", "20140101125959", "1000000000", "9999999999", "9999999999999",
          "9999999999999999", "1 January", "December 9999", "2014", "13/13/2013", "Tuesday", "31 Dec", "12.12.12", "1-1-1"]
@@ -83,9 +86,23 @@ def _configs():
     add("langs=ar,fa,he", None, languages=["ar", "fa", "he"])
     for f in (["%Y-%m-%d"], ["%d %B"], ["%H:%M"], ["%d/%m/%Y %H:%M:%S.%f", "%y%m%d"]):
         add("formats=%s" % f, None, languages=["en"], date_formats=f)
+    global N_BASE
+    N_BASE = len(out)
+    for f in (["%d %b %Y"], ["%Y-%m-%d %H:%M"], ["%d/%m/%Y", "%d %b %Y"]):
+        for st in ({"TIMEZONE": "Asia/Tokyo", "TO_TIMEZONE": "UTC"}, {"TIMEZONE": "-1200", "TO_TIMEZONE": "+1400"},
+                   {"TIMEZONE": "America/New_York"}, {"TO_TIMEZONE": "Pacific/Kiritimati", "RETURN_AS_TIMEZONE_AWARE": True}):
+            add("formats=%s,%s" % (f, sorted(st.items())), st, languages=["en"], date_formats=f)
+    for zone, days in (("America/New_York", [(2021, 3, 14), (2021, 11, 7)]), ("Europe/London", [(2021, 3, 28), (2021, 10, 31)]),
+                       ("Australia/Lord_Howe", [(2021, 4, 4), (2021, 10, 3)]), ("America/Sao_Paulo", [(2018, 11, 4), (2019, 2, 16)])):
+        for (y, m, d) in days:
+            for hh in (0, 12, 23):
+                for pdf in ("past", "future", "current_period"):
+                    add("DST %s base=%04d-%02d-%02d %02d:00 %s" % (zone, y, m, d, hh, pdf),
+                        {"TIMEZONE": zone, "RELATIVE_BASE": datetime(y, m, d, hh, 0), "PREFER_DATES_FROM": pdf}, languages=["en"])
     return out
 
 
+N_BASE = 0
 CONFIGS = _configs()
 CORE_CFG = ["default-en", "BASE=max", "BASE=min", "TIMEZONE=UTC", "TO_TIMEZONE=-1200", "BASE=aware-max,TIMEZONE=+1400",
             "PARSERS=['timestamp', 'negative-timestamp', 'relative-time', 'custom-formats', 'absolute-time', 'no-spaces-time']",
@@ -141,14 +158,20 @@ def spaces(tier, seed):
                                            [CFG_INDEX[n] for n in CORE_CFG] + [CFG_INDEX["BASE=aware-min"], CFG_INDEX["DATE_ORDER=YDM"],
                                                                                 CFG_INDEX["STRICT_PARSING=True"], CFG_INDEX["langs=fr,en"]])))
     sp.append(Product("relative-slot", {"prefix": ["", "("] if T else [""], "rel": RELS, "time": ["", "at 10:45", "25:00", "12 am"],
-                                        "zone": ZONES[:8] if T else ZONES[:4], "suffix": ["", "."], "cfg": range(len(CONFIGS))}))
+                                        "zone": ZONES[:8] if T else ZONES[:4], "suffix": ["", "."], "cfg": range(N_BASE)}))
     k = 4 if T else 3
     words = {"t%d" % i: SIGMA for i in range(k)}
     sp.append(Product("free-words", dict(words, cfg=[CFG_INDEX[n] for n in CORE_CFG[:3]]),
                       note="all sequences of %d tokens (the empty token gives the shorter ones) over a %d-token alphabet" % (k, len(SIGMA))))
     sp.append(Product("all-configs", {"prefix": ["", "("] if T else [""], "date": DATES, "sep1": [" "], "time": TIMES[:6], "sep2": [" "],
                                       "zone": ["", "UTC", "+1400", "-1200", "EST"], "suffix": ["", ":"] if T else [""],
-                                      "cfg": range(len(CONFIGS))}))
+                                      "cfg": range(N_BASE)}))
+    dst_cfgs = [i for i, (n, _) in enumerate(CONFIGS) if n.startswith("DST ")]
+    sp.append(Product("dst-transition-days", {"dst": DST_STRINGS, "cfg": dst_cfgs},
+                      note="clock times around the gap/overlap hour with a DST zone as TIMEZONE and the reference on a transition day"))
+    fmt_cfgs = [i for i, (n, _) in enumerate(CONFIGS) if n.startswith("formats=")]
+    sp.append(Product("formats-at-range-ends", {"fs": ["1 Jan 0001", "31 Dec 9999", "0001-01-01 00:00", "9999-12-31 23:59", "01/01/0001", "31/12/9999",
+                                                       "1 Jan 0001 00:00", "29 Feb 2023", "31 Dec 9999 23:59 +1400"], "cfg": fmt_cfgs}))
     sp.append(Listed("language-vocabulary", lang_tokens()))
     sp.append(Product("autodetect", {"prefix": [""], "date": DATES, "sep1": [" "], "time": ["", "23:59", "1.2.3"], "sep2": [" "],
                                      "zone": ["", "+1400", "EST"], "suffix": ["", "."], "cfg": [-1]},
@@ -160,6 +183,10 @@ def spaces(tier, seed):
 
 
 def build(c):
+    if "dst" in c:
+        return c["dst"]
+    if "fs" in c:
+        return c["fs"]
     if "rel" in c:
         s = c["prefix"] + c["rel"] + (" " + c["time"] if c["time"] else "") + (" " + c["zone"] if c["zone"] else "") + c["suffix"]
     elif "t0" in c:
